@@ -5,6 +5,7 @@ import (
 	"go/ast"
 	"go/token"
 	"go/types"
+	"strings"
 
 	"golang.org/x/tools/go/cfg"
 
@@ -39,6 +40,7 @@ func c30(p *an.Prog, r *an.R, tier string) {
 	r.Rule("C30.R4", "inside a loop over q.items the entry is identified by the range key or item.repoID (the key it was inserted under), never by item.opts.RepoID")
 	r.Rule("C30.R5", "lessQueueItemPriority, evaluated abstractly over all 48 combinations of (x.indexed, y.indexed, x failed, y failed, order of x.seq and y.seq), equals: un-indexed first, then non-failed first, then strictly lower seq")
 	r.Rule("C30.R6", "an assignment to item.indexed/indexState/seq is made either where the item is known to be off the heap or is followed on every on-heap path by heap.Fix/Remove")
+	r.Rule("C30.R7", "after backoff.Fail every path to the function exit takes the item off the heap (heap.Remove) or passes the edge on which heapIdx >= 0 is false: an item in backoff is not left where Pop yields it")
 	pk := p.Pkg(isrv)
 	qT := p.Named(isrv, "Queue")
 	mu := p.Field(isrv, "Queue", "mu")
@@ -76,6 +78,46 @@ func c30(p *an.Prog, r *an.R, tier string) {
 		}
 		return fi.g
 	}
+	// ---- R7
+	nFail := 0
+	for i := range fns {
+		fi := &fns[i]
+		if strings.HasSuffix(p.Fset.Position(fi.d.Decl.Pos()).Filename, "_test.go") {
+			continue
+		}
+		g := graph(fi)
+		for _, l := range g.Locs(func(ast.Node) bool { return true }) {
+			isFail := false
+			an.Inspect(g.Node(l), false, func(m ast.Node) bool {
+				if c, ok := m.(*ast.CallExpr); ok {
+					if cf := an.Callee(info, c); cf != nil && cf.Name() == "Fail" && cf.Pkg() == pk.Types {
+						if se, ok := ast.Unparen(c.Fun).(*ast.SelectorExpr); ok {
+							if s2, ok := ast.Unparen(se.X).(*ast.SelectorExpr); ok && s2.Sel.Name == "backoff" {
+								isFail = true
+							}
+						}
+					}
+				}
+				return true
+			})
+			if !isFail {
+				continue
+			}
+			nFail++
+			removes := func(k an.Loc) bool { return len(an.CallsTo(info, g.Node(k), false, hRemove)) > 0 }
+			offHeapEdge := func(b *cfg.Block, k int) bool {
+				return g.EdgeImplies(b, k, func(atom ast.Expr, truth bool) bool {
+					f, ok := an.IntCompare(info, atom, truth, func(e ast.Expr) bool { return selField(info, e, heapIdx) })
+					return ok && f.AtMost(-1)
+				})
+			}
+			srch := &an.Search{ExitIsTarget: true, Cut: removes, CutEdge: offHeapEdge}
+			stays := g.Reach(l, true, srch)
+			r.Check(!stays, "C30.R7", an.FuncName(fi.fn)+"/backoff.Fail/item-leaves-the-heap", g.Node(l).Pos(), "after the failure is recorded the item is removed from the heap unless it is not on it",
+				"after backoff.Fail a path reaches the end of the function with the item still on the heap (neither heap.Remove nor the heapIdx < 0 edge): Pop yields the repository while its backoff has not expired")
+		}
+	}
+	r.Floor("C30.R7.backoff-fail-sites", 1, nFail)
 	// ---- R1
 	accesses := 0
 	for i := range fns {
